@@ -13,8 +13,12 @@ def build():
 
 
 def writer_opcodes():
-    """Names of all operators the writer side offers (nl-opcodes.h of the tree under test)."""
-    path = os.path.join(vbuild.REPO, 'nl-writer2', 'include', 'mp', 'nl-opcodes.h')
+    """Names of all operators the writer side offers: the nl-opcodes.h the harness was compiled
+    against (vbuild regenerates it from src/gen-expr-info.cc of the tree under test)."""
+    if hasattr(vbuild, 'gen_dir'):
+        path = os.path.join(vbuild.gen_dir(), 'include', 'mp', 'nl-opcodes.h')
+    else:
+        path = os.path.join(vbuild.REPO, 'nl-writer2', 'include', 'mp', 'nl-opcodes.h')
     return re.findall(r'const\s+Opcode\s+(\w+)\s*=\s*\{\s*\d+', open(path).read())
 
 
